@@ -204,6 +204,8 @@ def eval_site(sg, params, site, radius_spec, supercell, res: Result):
                 exp, ties = expected(site, ops, M, np.vstack([positions, extra]), radius)
             traj = concretise.make_trajectory(allp.reshape(T, N, 3), ['Li'] * N, M * sc[:, None])
             before = np.array(traj.positions)
+            if len(positions) % 2:
+                traj.displacements  # an earlier analysis may have left the trajectory in displacement mode
             sa.analyze_trajectory(traj, supercell=tuple(supercell), radius=radius)
             shapes = sa.analyze_trajectory(traj, supercell=tuple(supercell), radius=radius)  # second call, same object
             if not np.array_equal(np.array(traj.positions), before):
